@@ -39,6 +39,12 @@ def build_text(rng, g):
         tags_big = False
     lines = ["name " + G.ident(), "version 1.0", ""]
     tags = set()
+    if rng.random() < 0.1:
+        # negative mode numbers are integers like any other (no register refers to them)
+        neg = {m: -rng.choice([1, 2, 3, 7, 12, 100]) for m in rng.sample(pool, rng.randint(1, len(pool)))}
+        if len(set(neg.values())) == len(neg):
+            pool = [neg.get(m, m) for m in pool]
+            tags.add("negative-modes")
     wires = []
     if tags_big:
         tags.add("big")
@@ -59,7 +65,7 @@ def build_text(rng, g):
             kws = []
             for _ in range(rng.choice([0, 1, 2])):
                 if rng.random() < 0.35:
-                    regs = rng.sample(pool + [rng.randint(0, 14)], rng.choice([1, 1, 2]))
+                    regs = rng.sample([m for m in pool if m >= 0] + [rng.randint(0, 14)], rng.choice([1, 1]) if all(m < 0 for m in pool) else rng.choice([1, 1, 2]))
                     args.append(" + ".join("%s*q%d" % (rng.choice(["2", "0.5", "1"]), r) for r in regs))
                     tags.add("regref:positional")
                     if rng.random() < 0.3:
@@ -70,7 +76,7 @@ def build_text(rng, g):
                     args.append(rng.choice(["1", "0.5", "2*3", "pi"]))
             for _ in range(rng.choice([0, 0, 1])):
                 if rng.random() < 0.4:
-                    r = rng.choice(pool + [rng.randint(0, 14)])
+                    r = rng.choice([m for m in pool if m >= 0] + [rng.randint(0, 14)])
                     kws.append("%s=q%d/2" % (G.ident(fresh=False), r))
                     tags.add("regref:keyword")
                 else:
